@@ -458,6 +458,22 @@ def Op.flat : Op → Bool
   | .meth b _ => b.isRoot
   | _ => true
 
+/-- every write of the program goes to the array a name holds (syntactic, decidable) -/
+def FlatWrites (ops : List Op) : Prop := ∀ op ∈ ops, op.flat = true
+
+instance (ops : List Op) : Decidable (FlatWrites ops) := by unfold FlatWrites; infer_instance
+
+/-- the place a mutating statement writes through -/
+def Op.target : Op → Option Place
+  | .setIdx b _ _ => some b
+  | .unset b _ => some b
+  | .meth b _ => some b
+  | _ => none
+
+def Op.isRef : Op → Bool
+  | .ref _ _ => true
+  | _ => false
+
 /-- number of declared properties of the one class `O` -/
 def np : Nat := 2
 
@@ -481,8 +497,11 @@ def stepOpt (cfg : Cfg) (s : St) : Op → Option St
     | some (v, s1) =>
       (match s1.varObj? x with
        | some h =>
-         let (v', n) := cloneOnStore v s1.next
-         some { (s1.setProp h p v') with next := n }
+         (match s1.propVal? h p with
+          | some _ =>
+            let (v', n) := cloneOnStore v s1.next
+            some { (s1.setProp h p v') with next := n }
+          | none => none)          -- undeclared property: outside the model
        | none => none)
     | none => none
   | .setIdx b k r =>
